@@ -7,9 +7,9 @@ CONSTANTS
   Districts = {"d1"}
   Policies = {"drop", "zero"}
   Offices = {FALSE, TRUE}
-  LevelLists <- LL_All
-  BlockLists <- BL_All
-  AllowMismatch = FALSE
+  LevelLists <- LL_Full
+  BlockLists <- BL_None
+  AllowMismatch = TRUE
   Export = FALSE
   WithOutputs = FALSE
 INVARIANT EveryUnitOnce
